@@ -52,14 +52,18 @@ PROPS = {
     },
     "C16": {
         "engines": [{"name": "incoming", "n": {"quick": 3000, "thorough": 100000}, "profiles": ["debug"]},
-                    {"name": "stream", "n": {"quick": 1000, "thorough": 40000}, "profiles": ["debug"], "oracle": "oracle", "shard": 100}],
-        "rule": "engine incoming: process_message on generated Message values (honest blocks, wrong data, unknown / scripted / oversize hash codes, "
+                    {"name": "stream", "n": {"quick": 1000, "thorough": 40000}, "profiles": ["debug"], "oracle": "oracle", "shard": 100},
+                    {"name": "conn", "n": {"quick": 600, "thorough": 30000}, "profiles": ["debug"], "oracle": "oracle_C16", "shard": 40, "count": ["has_bad_and_good"]}],
+        "rule": "engine conn: ONE real ConnHandler (lib.rs SelectAll<IncomingStream>, real FramedRead + Codec + process_message) with 1-4 scripted inbound streams opened at different times, each carrying 1-4 frames cut at arbitrary points with "
+                "Pending / EOF / read errors, some frames bad (oversize announcement, bad varint, protobuf error, invalid presence CID, unparsable block prefix, truncated tail); every IncomingMessage event is attributed to its "
+                "stream; per stream the events must equal Streams.stream_out of that stream's own read events (what precedes a bad frame is delivered, nothing after it, other streams complete), and the streams alive at the end are "
+                "those the model leaves pending. Non-trivial = at least two streams. engine incoming: process_message on generated Message values (honest blocks, wrong data, unknown / scripted / oversize hash codes, "
                 "unparsable prefixes, explicit v0, duplicates; valid / invalid / trailing-bytes presence CIDs with contradictory types; wantlists absent / "
                 "empty / full / with entries) under capacities 64/48/32 and 0-2 scripted hashers (ok / custom / fatal / invalid-size / unknown) in front of the "
                 "built-in table; each message is also processed with its skippable blocks removed. Non-trivial = the message has payload or presences.",
         "assumptions": ["32 <= S <= 255", "sha_respecting table (a hasher registered for code 0x12 returns sha2-256 multihashes)",
-                        "stream level (a bad frame ends only its stream; SelectAll of independent streams) is structural in lib.rs: each inbound stream is its own "
-                        "IncomingStream value; theorems about run_stream (Framed.v) cover the single stream, independence of streams is not exhibited by a model"],
+                        "stream level: Streams.v models IncomingStream::poll_next and the SelectAll of a connection with the polling order as an input (schedule); the conn engine cannot choose that order, it observes the order "
+                        "SelectAll used and checks the per-stream projections (which Streams_proofs shows independent of the schedule once every stream is polled enough)"],
     },
     "C09": {
         "engines": [{"name": "codec", "n": {"quick": 1200, "thorough": 40000}, "profiles": ["debug", "release"], "oracle": "oracle_C09",
